@@ -1,6 +1,15 @@
-//! C20 probe: the public state types must stay Send + Sync + Clone + 'static.
+//! C20 probe: the public state types must stay Send + Sync + Clone + 'static, in every feature set
+//! (the probe's features forward to the crate's; items that exist only under a feature are asserted
+//! under exactly that feature).
+#![no_std]
+#[cfg(feature = "with-alloc")]
+extern crate alloc;
+
+#[cfg(feature = "with-alloc")]
 use miniz_oxide::deflate::core::CompressorOxide;
-use miniz_oxide::inflate::core::{BlockBoundaryState, DecompressorOxide};
+#[cfg(feature = "block-boundary")]
+use miniz_oxide::inflate::core::BlockBoundaryState;
+use miniz_oxide::inflate::core::DecompressorOxide;
 use miniz_oxide::inflate::stream::{FullReset, InflateState, MinReset, ZeroReset};
 use miniz_oxide::inflate::TINFLStatus;
 use miniz_oxide::{DataFormat, MZError, MZFlush, MZStatus, StreamResult};
@@ -11,7 +20,9 @@ fn send_sync<T: Send + Sync + 'static>() {}
 pub fn assertions() {
     ok::<DecompressorOxide>();
     ok::<InflateState>();
+    #[cfg(feature = "with-alloc")]
     ok::<CompressorOxide>();
+    #[cfg(feature = "block-boundary")]
     ok::<BlockBoundaryState>();
     ok::<StreamResult>();
     ok::<TINFLStatus>();
@@ -22,6 +33,15 @@ pub fn assertions() {
     send_sync::<MinReset>();
     send_sync::<ZeroReset>();
     send_sync::<FullReset>();
+    #[cfg(feature = "with-alloc")]
     send_sync::<miniz_oxide::inflate::DecompressError>();
-    send_sync::<Box<InflateState>>();
+    #[cfg(feature = "with-alloc")]
+    send_sync::<alloc::boxed::Box<InflateState>>();
+    #[cfg(feature = "with-alloc")]
+    {
+        ok::<miniz_oxide::deflate::core::TDEFLStatus>();
+        ok::<miniz_oxide::deflate::core::TDEFLFlush>();
+        ok::<miniz_oxide::deflate::core::CompressionStrategy>();
+        ok::<miniz_oxide::deflate::CompressionLevel>();
+    }
 }
